@@ -49,6 +49,9 @@ fn resolve(id: u32) -> Entity
     with_names(|n| n.fwd.get(&id).copied()).unwrap_or_else(|| Entity::from_raw(PLACEHOLDER_BASE + id))
 }
 
+/// A system id is introduced by one action of the program; a second introduction is a no-op (DESIGN, wf rule).
+fn is_bound(id: u32) -> bool { with_names(|n| n.fwd.contains_key(&id)) }
+
 fn bind(id: u32, e: Entity)
 {
     with_names(|n| { if !n.fwd.contains_key(&id) { n.fwd.insert(id, e); n.rev.insert(e, id); } });
@@ -411,6 +414,7 @@ fn do_action(ctx: &mut Ctx, occ: &str, a: &Action)
         Action::Sps(s) =>
         {
             mark(&mut ctx.c, occ);
+            if is_bound(*s) { return; }
             let sc = spawn_sys(&mut ctx.c, *s, &prog);
             bind(*s, *sc);
         }
@@ -427,6 +431,7 @@ fn do_action(ctx: &mut Ctx, occ: &str, a: &Action)
         Action::On(s, b) =>
         {
             mark(&mut ctx.c, occ);
+            if is_bound(*s) { return; }
             // `on` = spawn_system_command + with(Cleanup): the id must be bound before the bundle is resolved
             let sc = spawn_sys(&mut ctx.c, *s, &prog);
             bind(*s, *sc);
@@ -436,6 +441,7 @@ fn do_action(ctx: &mut Ctx, occ: &str, a: &Action)
         Action::Onp(s, b) =>
         {
             mark(&mut ctx.c, occ);
+            if is_bound(*s) { return; }
             let sc = spawn_sys(&mut ctx.c, *s, &prog);
             bind(*s, *sc);
             let bundle = DynBundle::from_triggers(b);
@@ -444,6 +450,7 @@ fn do_action(ctx: &mut Ctx, occ: &str, a: &Action)
         Action::Onr(tok, s, b) =>
         {
             mark(&mut ctx.c, occ);
+            if is_bound(*s) { return; }
             let sc = spawn_sys(&mut ctx.c, *s, &prog);
             bind(*s, *sc);
             let bundle = DynBundle::from_triggers(b);
@@ -453,6 +460,7 @@ fn do_action(ctx: &mut Ctx, occ: &str, a: &Action)
         Action::Once(tok, s, b) =>
         {
             mark(&mut ctx.c, occ);
+            if is_bound(*s) { return; }
             // the reactor entity is created inside `once`; bundles naming the reactor itself cannot exist
             let bundle = DynBundle::from_triggers(b);
             let token = once_sys(&mut ctx.c, *s, &prog, bundle);
